@@ -13,7 +13,7 @@ class Obl(object):
 
     def __init__(self, name, fn=None, bounds="", timeout=60, findings=(), contracts=(), lemmas=(),
                  kind="ch", run=None, replay=None, per_path_timeout=None, outside="", functions=(),
-                 expect=None, twin=True):
+                 expect=None, twin=True, whole_finding=None):
         self.name = name
         self.fn = fn
         self.bounds = bounds
@@ -28,3 +28,5 @@ class Obl(object):
         self.per_path_timeout = per_path_timeout
         self.functions = tuple(functions)
         self.twin = twin
+        # id of a listed known finding whose region is this entire obligation (e.g. one class x direction)
+        self.whole_finding = whole_finding
